@@ -396,7 +396,9 @@ static void query(World<Mesh> &w, std::ostream &o, int m_laps, const std::vector
 
     // ---- valence, is_boundary   ("U" = the call would index a disabled cache out of range)
     auto line = [&](const char *tag, const char *kn, int n, std::function<std::string(int)> f) {
-        o << "B " << tag << " " << kn << " :"; for (int i = 0; i < n; ++i) o << " " << f(i); if (n == 0) o << " "; o << "\n"; };
+        std::vector<std::string> vals;   // f may report through the oracle (same stream): evaluate first, keep the line in one piece
+        for (int i = 0; i < n; ++i) vals.push_back(f(i));
+        o << "B " << tag << " " << kn << " :"; for (auto &v : vals) o << " " << v; if (n == 0) o << " "; o << "\n"; };
     auto bad = [&](const char *what, int i) { out.fail("C01", std::string(what) + "(" + std::to_string(i) + ") disagrees with the brute-force scan of the definitions"); };
     line("val", "V", nv, [&](int i) { if ((size_t)i >= m.outgoing_hes_per_vertex_.size()) return std::string("U"); size_t r = m.valence(VertexHandle(i));
         if (g_oracle && br.ok && !s.vd[i] && r != br.voh(i).size()) bad("valence(vertex)", i); return std::to_string(r); });
@@ -501,6 +503,7 @@ static void run_script(const std::vector<std::string> &lines) {
             }
             mark_new_vertices(w, std::min(old_nv, (int)w.mesh.n_vertices()));   // take_snap reads vertex positions: keep them defined
             dump_state(w, o);
+            if (g_oracle) (void)valid_for_c01(take_snap(w));                    // records a history that leaves the contract
         }
         std::string s = o.str();
         fwrite(s.data(), 1, s.size(), stdout);
